@@ -17,7 +17,7 @@ RULE = (
     "any 1..3 of the four flags with or without a layout mandated through parse(layout=) or the config text; and uncommitted parses, where the "
     "returned tracts and the flags they carry are all there is to look at} x one foreign word "
     "inserted at any token or punctuation boundary (start, end, inside a Twp/Rge, inside a section list, inside a block, "
-    "before the first / after the last Twp/Rge). Words: the marker QJXKQ, random alphabetic words of 5..12 letters, and "
+    "before the first / after the last Twp/Rge). Words: the marker QJXKQ, random alphabetic words of 5..12 letters, nine words of 2..4 letters, and "
     "ordinary deed words that collide with pattern fragments (equipment, development, northerly, ...). Oracle: the word is "
     "a substring of some tract description or of an unused_desc error flag. A second sub-check requires every block word "
     "(>= 5 letters) of an undamaged description to survive in every mode. Non-trivial: the word lands in an error flag, or "
@@ -49,12 +49,17 @@ KEYWORD = re.compile(
 SEC_TAIL = re.compile(r".*(section|sect|sec|secion|seciton|secton|sectn|secn)s?", re.I)
 
 
+SHORT_WORDS = ["QJX", "ZQ", "ok", "xyz", "foo", "QJXK", "kiln", "jazz", "qua"]      # 2..4 letters, none of them PLSS vocabulary
+
+
 def admissible(word):
     # a word that merely ends in a section keyword ('...sec 29') donates that ending to a section reference
+    if word in SHORT_WORDS:
+        return True
     return word.isalpha() and len(word) >= 5 and not KEYWORD.fullmatch(word) and not SEC_TAIL.fullmatch(word)
 
 
-WORD = st.one_of(st.just("QJXKQ"), st.sampled_from(DEED_WORDS),
+WORD = st.one_of(st.just("QJXKQ"), st.sampled_from(DEED_WORDS), st.sampled_from(SHORT_WORDS),
                  st.text(alphabet="abcdefghijklmnopqrstuvwxyz", min_size=5, max_size=12),
                  st.text(alphabet="pmreqtnsw", min_size=5, max_size=8)).filter(admissible)
 
@@ -185,7 +190,7 @@ def nontrivial(c):
 def classes(c):
     out = [mode_class(c["mode"]), f"landing={_last.get('landing')}", "damaged" if c["ops"] else "undamaged"]
     w = c["word"]
-    out.append("word=marker" if w == "QJXKQ" else "word=deed" if w in DEED_WORDS else "word=random")
+    out.append("word=marker" if w == "QJXKQ" else "word=deed" if w in DEED_WORDS else "word=short" if w in SHORT_WORDS else "word=random")
     return out
 
 
@@ -278,7 +283,7 @@ SUBS = [
         n={"quick": 500, "thorough": 8000}, shards={"quick": 4, "thorough": 16}),
     Sub("foreign_word", oracle, strategy=lambda tier: CASE, validate=validate, nontrivial=nontrivial, classes=classes, render=render,
         n={"quick": 1200, "thorough": 20000}, shards={"quick": 10, "thorough": 16},
-        essential=tuple(f"mode={m}" for m in MODES) + ("mode=combination", "landing=flag", "landing=tract", "damaged", "word=deed", "word=random")),
+        essential=tuple(f"mode={m}" for m in MODES) + ("mode=combination", "landing=flag", "landing=tract", "damaged", "word=deed", "word=random", "word=short")),
     Sub("payload", oracle_payload, strategy=lambda tier: PAY_CASE, validate=lambda c: G.validate(c["d"]),
         nontrivial=lambda c: c["mode"] != "" and bool(payload_words(c["d"])), classes=lambda c: [mode_class(c["mode"])],
         render=lambda c: {"text": G.render(c["d"]), "mode": c["mode"]},
